@@ -3,6 +3,7 @@ import Sgz.Model.Container
 import Sgz.Proofs.Layout
 import Sgz.Proofs.Header
 import Mathlib.Tactic.Ring
+import Sgz.Proofs.Derived
 /-!
 # C03 — container conformance: the version word, section sizes and footer offsets
 
@@ -158,5 +159,39 @@ example : (Header.make fOk).isSome = true ∧ Header.validRateQ fOk.q = true := 
 
 /-- a field outside its 32-bit range is refused by the writer, not stored wrapped -/
 example : Header.make { fOk with xl0 := 2147483648 } = none := by decide
+
+/-! ### closure: files derived from a conformant file are conformant (Model/Derived)
+
+`Derived.Conformant` states what the specification asks of the fixed header fields of a 3D file: a valid geometry, the data
+length `diskBlocks` of that geometry at the stated rate, header arrays of `4·n_il·n_xl` bytes, a trace count within the
+grid.  The cropper's and the re-blocker's header patches keep it, for every accepted box / every supported source — so
+every composition of conversions, crops and re-blocks yields a conformant header. -/
+
+theorem cropped_file_conformant (f : Header.Fields) (hc : Derived.Conformant f) (b : Crop.Box)
+    (hb : Crop.Aligned (Derived.geoOf f) b) (s : Bool) (p : Nat) (hp : p ≤ (b.i1 - b.i0) * (b.x1 - b.x0)) :
+    Derived.Conformant (Derived.cropHeader f b s p) := Derived.crop_conformant f hc b hb s p hp
+
+theorem reblocked_file_conformant (f : Header.Fields) (hc : Derived.Conformant f)
+    (hs : Reblock.supported (Derived.geoOf f) = true) : Derived.Conformant (Derived.reblockHeader f) :=
+  Derived.reblock_conformant f hc hs
+
+/-- crop then re-block (when the crop is a supported source) stays conformant: closure composes -/
+theorem crop_then_reblock_conformant (f : Header.Fields) (hc : Derived.Conformant f) (b : Crop.Box)
+    (hb : Crop.Aligned (Derived.geoOf f) b) (s : Bool) (p : Nat) (hp : p ≤ (b.i1 - b.i0) * (b.x1 - b.x0))
+    (hs : Reblock.supported (Derived.geoOf f) = true) :
+    Derived.Conformant (Derived.reblockHeader (Derived.cropHeader f b s p)) := by
+  apply Derived.reblock_conformant _ (Derived.crop_conformant f hc b hb s p hp)
+  rw [Derived.geoOf_crop]
+  simpa [Reblock.supported, Crop.outGeo] using hs
+
+-- non-vacuity: a conformant 2-bit header in the re-blockable layout, an aligned box
+def fConf : Header.Fields :=
+  { nHeaderBlocks := 2, nSamples := 1024, nXl := 10, nIl := 9, zStart := 0, xl0 := 1, il0 := 1, interval := 4000, dXl := 1,
+    dIl := 1, q := 8, b0 := 4, b1 := 4, b2 := 1024, dataBlocks := 9, arrayBytes := 360, nArrays := 2, tracecount := 90,
+    version := 2057 }
+example : Derived.Conformant fConf := ⟨by decide, by decide, by decide, by decide⟩
+example : Crop.Aligned (Derived.geoOf fConf) ⟨4, 9, 0, 8, 0, 1024⟩ :=
+  ⟨by decide, by decide, by decide, by decide, by decide, by decide⟩
+example : Reblock.supported (Derived.geoOf fConf) = true := by decide
 
 end Sgz.Props.C03
